@@ -114,18 +114,35 @@ func c14BodyW(e *c14Env, stamp int, l *obsLog) {
 		sink := e.writer()
 		w := bufiox.NewDefaultWriter(sink)
 		bw := thrift.NewBufferWriter(w)
+		var pre []byte
+		if round == 1 {
+			// the buffer is almost full when the region is reserved: this Malloc itself makes the writer grow
+			pre = stamped(stamp, 4050, 9)
+			w.WriteBinary(pre)
+		}
 		bw.WriteString(string(stamped(stamp, 30, round)))
 		bw.WriteI32(int32(stamp*100 + round))
 		region, _ := w.Malloc(16) // filled late, after the growth below
-		bw.WriteBinary(stamped(stamp, 5000, round+1))
+		var raw []byte
+		if round == 1 {
+			// only WriteBinary after the reservation (no further Malloc), and it makes the writer grow once more
+			raw = stamped(stamp, 9000, 11)
+			w.WriteBinary(raw)
+		} else {
+			bw.WriteBinary(stamped(stamp, 5000, round+1))
+		}
 		copy(region, stamped(stamp, 16, 7))
 		err := w.Flush()
 		bw.Recycle()
-		var want []byte
+		want := append([]byte{}, pre...)
 		want = ref.Encode(want, &ref.Value{T: ref.STRING, S: stamped(stamp, 30, round)})
 		want = ref.Encode(want, &ref.Value{T: ref.I32, I: uint64(uint32(int32(stamp*100 + round)))})
 		want = append(want, stamped(stamp, 16, 7)...)
-		want = ref.Encode(want, &ref.Value{T: ref.STRING, S: stamped(stamp, 5000, round+1)})
+		if round == 1 {
+			want = append(want, raw...)
+		} else {
+			want = ref.Encode(want, &ref.Value{T: ref.STRING, S: stamped(stamp, 5000, round+1)})
+		}
 		l.add("W%d sink %s %v %s", round, digest(sink.Got), err, expect(sink.Got, want))
 	}
 }
